@@ -177,7 +177,7 @@ def judge(case, out):
         hit = [i for i in errs if i[0] in case["codes"]]
         if not hit:
             seen = sorted({i[0] for i in errs})
-            return [("fault-not-flagged:%s:%s" % (f, "+".join(seen) or "no-error"),
+            return [("fault-not-flagged:%s" % f,
                      "sidecar %s breaks exactly the rule %s; expected an error-severity issue with code in %s, "
                      "validation reported %s" % (text, f, sorted(case["codes"]), seen or "no error"))], []
         drift = []
